@@ -37,10 +37,13 @@ REQUIRED_MONITORS = ["C20.parallel-twin-oracle", "C20.subsampling-translation-ch
 # not claimed for the parallel wrapper: strategies whose utilities consume random numbers (bootstrap in EMCM; random
 # tie-breaking of the committee members' hard votes in QBC vote_entropy / variation_ratios) - evaluating the candidates in
 # chunks legitimately changes the random stream, so equal-seed utilities are not comparable
-PAR_OK = [n for n, e in POOL.items() if e.independent and e.feat and e.selection == "max"
+PAR_OK = [n for n, e in POOL.items() if e.independent and e.feat and e.selection == "max" and not e.is_wrapper
           and n not in ("EMCM", "QBC_VE_list", "QBC_VR_list")]
-SUB_OK = [n for n, e in POOL.items() if e.selection != "rt" and not n.startswith("Badge")]
-SAW_OK = [n for n, e in POOL.items() if e.kind in ("clf", "both") and e.arbitrary_index_ok]
+# wrapped strategies that consume random numbers before their own selection step: under exact ties their tie-break uses a
+# later draw than the wrapper's, so the selection is only compared when the best candidate is unique
+TIE_RNG_DIFFERS = {"CostEmbeddingAL", "CostEmbeddingAL_cm", "GreedySamplingX", "GreedySamplingTarget", "GreedySamplingTarget_GSy"}
+SUB_OK = [n for n, e in POOL.items() if e.selection != "rt" and not n.startswith("Badge") and not e.is_wrapper]
+SAW_OK = [n for n, e in POOL.items() if e.kind in ("clf", "both") and e.arbitrary_index_ok and not e.is_wrapper]
 
 
 def gen_cases(tier, seed):
@@ -205,13 +208,16 @@ def run_par(desc, c, e, add, rng):
         return {"nontrivial": False}
     contracts.count("C20.parallel-twin-oracle")
     u_ref, u_out = np.asarray(ref[1], float)[0], np.asarray(out[1], float)[0]
-    from vf.props.c08 import RTOL
-    if u_ref.shape != u_out.shape or not np.allclose(u_ref, u_out, rtol=RTOL.get(e.name, 1e-7), atol=1e-9, equal_nan=True):
+    from vf.props.c08 import RTOL, _close
+    if u_ref.shape != u_out.shape or not _close(u_ref, u_out, RTOL.get(e.name, 1e-7)):
         i = int(np.nanargmax(np.abs(np.nan_to_num(u_ref) - np.nan_to_num(u_out)))) if u_ref.shape == u_out.shape else -1
         add("parallel-utilities-differ-from-inner", "n_jobs=%s backend=%s: position %d: %r (wrapper) vs %r (inner)" % (
             nj, desc["backend"], i, u_out[i] if i >= 0 else u_out.shape, u_ref[i] if i >= 0 else u_ref.shape))
-    elif _unique_best(u_ref) and np.asarray(out[0]).tolist() != np.asarray(ref[0]).tolist():
-        add("parallel-selection-differs-from-inner", "%s vs %s" % (np.asarray(out[0]).tolist(), np.asarray(ref[0]).tolist()))
+    elif (_unique_best(u_ref) or e.name not in TIE_RNG_DIFFERS) and np.asarray(out[0]).tolist() != np.asarray(ref[0]).tolist():
+        # equal seeds: the wrapper breaks ties with the first draw of its derived generator, exactly as a wrapped strategy
+        # that draws nothing before its own selection
+        add("parallel-selection-differs-from-inner", "%s vs %s (unique best: %s)" % (
+            np.asarray(out[0]).tolist(), np.asarray(ref[0]).tolist(), _unique_best(u_ref)))
     chunks = 0
     # the jobs work on copies of the strategy, so the chunk calls are observed through the class-level query contract
     inner_recs = [r for r in ct.drain() if r["cls"] == e.cls.__name__ and "n_cand" in r]
